@@ -82,6 +82,7 @@ type view struct {
 	elemKind []string
 	allKinds []string   // kind of every element, parallel to strs (element views only)
 	paras    []paraInfo // paragraphs the element tree was built from (element views only; classification aid)
+	input    []text.TextFragment // the fragments the layout code was given (Part 1: the specification; Part 2: Fragments())
 	err      error
 }
 
@@ -193,11 +194,22 @@ func judge(items []item, v view, family, aspect string) verdict {
 			}
 			byText[it.text] = append(byText[it.text], i)
 		}
+		// longest texts first, and every occurrence is blanked once counted: a short text (the bullet "-") must not be
+		// found inside a longer one (the hyphenated word "Abcd-")
+		sort.SliceStable(order, func(i, j int) bool { return len(order[i]) > len(order[j]) })
+		work := S
+		countAndBlank := func(t string) int {
+			c := strings.Count(work, t)
+			if c > 0 {
+				work = strings.ReplaceAll(work, t, strings.Repeat("\x00", len(t)))
+			}
+			return c
+		}
 		for _, t := range order {
 			ids := byText[t]
-			found := strings.Count(S, t)
+			found := countAndBlank(t)
 			if rt := reverse(t); rt != t && items[ids[0]].rtl {
-				found += strings.Count(S, rt) // a renderer may emit an RTL run in visual order
+				found += countAndBlank(rt) // a renderer may emit an RTL run in visual order
 			}
 			minC, maxC := len(ids), 0
 			for _, i := range ids {
@@ -475,67 +487,59 @@ func classifyLost(items []item, lost []bool, family string, v view) []string {
 			}
 		}
 	}
-	// (b) a whole vertical band (a detected "column") narrower than the minimum column width
+	// (b) a whole detected column narrower than the minimum column width. The column regions are recomputed here
+	// from the fragments the detector was given, with the pinned constants of ColumnDetector.findVerticalGaps
+	// (5pt buckets, valley = density below 20% of the average, at least 20pt wide, at most 5 gaps): a region runs
+	// from one gap centre to the next. All lost fragments of a region must fit into 50pt, and whatever survived in
+	// that region must have had another way out (a row with content inside a gap = spanning line; a heading/list).
 	if hasColumn {
-		var rest []int
-		for i := 0; i < n; i++ {
-			if lost[i] && !explained[i] && !inPara[i] {
-				rest = append(rest, i)
-			}
-		}
-		bands := newUF(n)
-		for a := 0; a < len(rest); a++ {
-			for b := a + 1; b < len(rest); b++ {
-				i, j := rest[a], rest[b]
-				if hgap(items[i], items[j]) <= pinAdjacent*math.Max(items[i].h, items[j].h) {
-					bands.join(i, j)
+		gaps := pinnedGaps(v.input)
+		if len(gaps) > 0 {
+			region := func(it item) int {
+				c := it.x + it.w/2
+				r := 0
+				for r < len(gaps) && c >= (gaps[r][0]+gaps[r][1])/2 {
+					r++
 				}
+				return r
 			}
-		}
-		bm := map[int][]int{}
-		for _, i := range rest {
-			bm[bands.find(i)] = append(bm[bands.find(i)], i)
-		}
-		for _, ids := range bm {
-			x0, _, x1, _ := extent(items, ids)
-			if x1-x0 >= pinMinColumnWidth {
-				continue
-			}
-			// a column exists only next to a vertical whitespace gap: some other content of the page must lie at
-			// least the minimum gap width to the left or right of the band
-			hasGap := false
-			for j := 0; j < n; j++ {
-				if items[j].x >= x1+pinMinGapWidth || items[j].right() <= x0-pinMinGapWidth {
-					hasGap = true
-					break
-				}
-			}
-			if !hasGap {
-				continue
-			}
-			// nothing that survived may live entirely inside the band (it would have been in the same column)
-			clean := true
-			for r, mem := range runMembers {
-				_ = r
-				surv := false
-				for _, i := range mem {
-					if !lost[i] {
-						surv = true
+			inGapRow := func(i int) bool { // the row of item i has content whose centre lies inside a gap
+				for j := 0; j < n; j++ {
+					if !sameRow(items[i], items[j]) {
+						continue
+					}
+					c := items[j].x + items[j].w/2
+					for _, g := range gaps {
+						if c > g[0] && c < g[1] {
+							return true
+						}
 					}
 				}
-				if !surv || viaOther(mem) {
+				return false
+			}
+			for r := 0; r <= len(gaps); r++ {
+				var L []int
+				ok := true
+				for i := 0; i < n; i++ {
+					if region(items[i]) != r {
+						continue
+					}
+					switch {
+					case lost[i] && !explained[i] && !inPara[i]:
+						L = append(L, i)
+					case !lost[i] && !inGapRow(i) && !viaOther([]int{i}):
+						ok = false // an ordinary fragment of this region survived: the column was not dropped
+					}
+				}
+				if len(L) == 0 || !ok {
 					continue
 				}
-				rx0, _, rx1, _ := extent(items, mem)
-				if rx0 >= x0 && rx1 <= x1 {
-					clean = false
+				if x0, _, x1, _ := extent(items, L); x1-x0 < pinMinColumnWidth {
+					for _, i := range L {
+						explained[i] = true
+					}
+					classes["column-narrower-than-50pt"] = true
 				}
-			}
-			if clean {
-				for _, i := range ids {
-					explained[i] = true
-				}
-				classes["column-narrower-than-50pt"] = true
 			}
 		}
 	}
@@ -594,6 +598,62 @@ func classifyLost(items []item, lost []bool, family string, v view) []string {
 		}
 	}
 	return sortedKeys(classes)
+}
+
+// pinnedGaps re-derives the column gaps (left, right) the way ColumnDetector.findVerticalGaps does, with the constants
+// pinned when this check was written.
+func pinnedGaps(fr []text.TextFragment) [][2]float64 {
+	if len(fr) == 0 {
+		return nil
+	}
+	const bucket, lowFrac, minGap, maxGaps = 5.0, 0.2, pinMinGapWidth, 5
+	pw := pageW
+	nb := int(pw/bucket) + 1
+	hist := make([]int, nb)
+	clamp := func(b int) int {
+		if b < 0 {
+			return 0
+		}
+		if b >= nb {
+			return nb - 1
+		}
+		return b
+	}
+	minX, maxX := fr[0].X, fr[0].X+fr[0].Width
+	for _, f := range fr {
+		minX, maxX = math.Min(minX, f.X), math.Max(maxX, f.X+f.Width)
+		for b := clamp(int(f.X / bucket)); b <= clamp(int((f.X+f.Width)/bucket)); b++ {
+			hist[b]++
+		}
+	}
+	start, end := clamp(int(minX/bucket)), clamp(int(maxX/bucket))
+	total := 0
+	for b := start; b <= end; b++ {
+		total += hist[b]
+	}
+	thr := float64(total) / float64(end-start+1) * lowFrac
+	var gaps [][2]float64
+	in, vs := false, 0
+	for b := start; b <= end; b++ {
+		low := float64(hist[b]) < thr
+		if low && !in {
+			in, vs = true, b
+		} else if !low && in {
+			in = false
+			if l, r := float64(vs)*bucket, float64(b)*bucket; r-l >= minGap {
+				gaps = append(gaps, [2]float64{l, r})
+			}
+		}
+	}
+	if in {
+		if l, r := float64(vs)*bucket, float64(end)*bucket; r-l >= minGap {
+			gaps = append(gaps, [2]float64{l, r})
+		}
+	}
+	if len(gaps) > maxGaps {
+		gaps = gaps[:maxGaps]
+	}
+	return gaps
 }
 
 // classifyDup: in the element tree a text can be emitted by several elements; the class names their kinds.
